@@ -3,7 +3,7 @@
     Model: Model/C09_Transform.v (leaves, heap graph, traversal, output functions), tied to /repo by
     (U) the call-log correspondence of the traversal, (N) the interval correspondence of the leaves and
     (F) the tables of Gen/C09/Tables.v regenerated on every run. *)
-From Coq Require Import Reals List Bool Arith String.
+From Coq Require Import Reals Lra List Bool Arith String.
 From CB Require Import Base.Vec3 Model.C09_Transform Proofs.C09_Leaves Proofs.C09_Commute Proofs.C09_Equivariance.
 From CB Require Import Gen.C09.Tables.
 Import ListNotations.
